@@ -11,6 +11,7 @@ apply patch → existing suite passes → demo fails → remove worktree. Then a
 import sys, os, json, subprocess, shutil, time
 
 ROOT = os.path.dirname(os.path.dirname(os.path.abspath(__file__)))
+REPO = os.environ.get('VERIF_REPO') or os.path.normpath(os.path.join(ROOT, '..', 'repo'))
 ENV = dict(os.environ, CARGO_NET_OFFLINE='true', CARGO_TARGET_DIR='/tmp/seedcheck/target')
 
 
@@ -37,7 +38,7 @@ def main():
     if not skip:
         os.makedirs('/tmp/seedcheck', exist_ok=True)
         wt = f'/tmp/seedcheck/wt-{os.getpid()}'
-        sh(['git', '-C', '/repo', 'worktree', 'add', '-q', '--detach', wt, 'HEAD'])
+        sh(['git', '-C', REPO, 'worktree', 'add', '-q', '--detach', wt, 'HEAD'])
         try:
             rc, out = sh(['git', 'apply', patch], cwd=wt)
             res['apply_rc'] = rc
@@ -66,13 +67,13 @@ def main():
             res['demo_clean_rc'] = rc
             res['demo_clean_tail'] = out[-600:]
         finally:
-            sh(['git', '-C', '/repo', 'worktree', 'remove', '--force', wt])
+            sh(['git', '-C', REPO, 'worktree', 'remove', '--force', wt])
         res['confirmed'] = res.get('demo_clean_rc') == 0 and res.get('apply_rc') == 0 and res.get('suite_ok') and res.get('demo_mutant_rc') != 0
     # now our checks
-    rc, out = sh(['git', '-C', '/repo', 'status', '--porcelain', '-uno'])
+    rc, out = sh(['git', '-C', REPO, 'status', '--porcelain', '-uno'])
     if out.strip():
         print('refusing: /repo has uncommitted changes'); return 2
-    rc, out = sh(['git', '-C', '/repo', 'apply', patch])
+    rc, out = sh(['git', '-C', REPO, 'apply', patch])
     if rc != 0:
         res['repo_apply'] = out[-500:]
     else:
@@ -84,7 +85,7 @@ def main():
                 lines = [l for l in out.splitlines() if l.startswith('VIOLATION') or l.startswith('KNOWN')]
                 res['checks'][c] = {'rc': rc, 'lines': lines[:6], 'wall': round(time.time() - t, 1), 'tail': out[-300:]}
         finally:
-            sh(['git', '-C', '/repo', 'checkout', '--', '.'])
+            sh(['git', '-C', REPO, 'checkout', '--', '.'])
     res['caught_by'] = [c for c, r in res.get('checks', {}).items() if r['rc'] == 1 and r['lines']]
     json.dump(res, open(os.path.join(d, 'result.json'), 'w'), indent=1)
     print(json.dumps(res, indent=1))
